@@ -83,6 +83,8 @@ TABLE = {
             {"driver": "chan-mt", "required_clauses": ["channel-delivery", "channel-closed"],
              "opts": {"quick": {"threads": 2, "len": 2, "preempt": 2}, "thorough": {"threads": 2, "len": 3, "preempt": 3, "wall": 900}}},
             {"driver": "chan-seq", "required_clauses": ["callback-legitimacy", "dispatch-owed"]},
+            {"driver": "sync-mt", "required_clauses": ["sync-channel-delivery", "blocking-send-parked", "channel-closed"],
+             "opts": {"quick": {"threads": 1, "len": 2, "preempt": 2}, "thorough": {"threads": 2, "len": 2, "preempt": 2, "wall": 1500}}},
         ],
     },
     "C08": {
